@@ -4,7 +4,7 @@
     Arch/ExtractGen.v. *)
 From Coq Require Import List NArith Bool String.
 From Verif Require Import Lib.Path Arch.Extract Arch.ExtractProofs Arch.ZipRound Arch.ZipRoundProofs
-  Arch.ExtractGen Gen.ArchSkeleton.
+  Arch.Round3 Arch.ExtractGen Gen.ArchSkeleton.
 Import ListNotations.
 Local Open Scope N_scope.
 
@@ -165,6 +165,76 @@ Theorem C17_zip_file_roundtrip : forall c f dir D name pm d,
 Proof. exact zip_file_roundtrip. Qed.
 Print Assumptions C17_zip_file_roundtrip.
 
+(** ** Round 3: usage patterns *)
+
+(** ANY sequence of extractions into one destination — zip with or without
+    clear, tar, in any order, each with any archive, also after a refusal,
+    and with anybody removing parts of the destination in between — leaves
+    everything outside the destination as it was before the first call. *)
+Theorem C17_sequence_of_calls_confined : forall c dir D xs f,
+  resolve (cwd c) (clean dir) = Some D ->
+  confined D f (do_calls c dir D f xs).
+Proof. exact calls_confined. Qed.
+Print Assumptions C17_sequence_of_calls_confined.
+
+(** [tarutil.TarZipFile] followed by the tar extractor: confined whatever
+    the zip file holds and whatever directory name the entries are put
+    under. *)
+Theorem C17_tarzip_then_untar_confined : forall c dir D sub zes,
+  resolve (cwd c) (clean dir) = Some D ->
+  forall f k,
+    lookup (snd (untar c f dir (tar_zip sub zes))) k = lookup f k \/
+    is_prefix D k = true \/
+    (is_prefix k D = true /\ lookup f k = None /\
+     is_dir_node (lookup (snd (untar c f dir (tar_zip sub zes))) k) = true).
+Proof. exact tar_zip_untar_confined. Qed.
+Print Assumptions C17_tarzip_then_untar_confined.
+
+(** "Same permission bits", literally: with umask 0 and modes that [chmod] /
+    [mkdir] can represent (07777 for files, 01777 for directories) the
+    extracted tree IS the original tree. *)
+Theorem C17_zip_roundtrip_exact : forall c f dir D t,
+  wf_tree t = true ->
+  forallb goodb (cwd c) = true ->
+  dir <> [] ->
+  resolve (cwd c) dir = Some D ->
+  dest_ready f D ->
+  umask c = 0 -> modes_plain t = true ->
+  exists f',
+    unzip_entries c f dir (zip_dir t) = (XOk, f') /\
+    (forall r, lookup f' (D ++ r) = lookup t r) /\
+    (forall k, is_prefix D k = false -> lookup f' k = lookup f k).
+Proof. exact zip_roundtrip_exact. Qed.
+Print Assumptions C17_zip_roundtrip_exact.
+
+(** ZipDir, then TarZipFile with no directory prefix, then the tar extractor
+    ([Cont.CopyOut]'s): the tree arrives, modes as [mkdir] and [open] leave
+    them under the umask, nothing else changes. *)
+Theorem C17_tar_roundtrip : forall c f dir D t,
+  wf_tree t = true ->
+  dir <> [] ->
+  resolve (cwd c) dir = Some D ->
+  dest_ready f D ->
+  exists f',
+    untar c f dir (tar_zip [] (zip_dir t)) = (XOk, f') /\
+    (forall r, lookup f' (D ++ r) = option_map (tar_node (umask c)) (lookup t r)) /\
+    (forall k, is_prefix D k = false -> lookup f' k = lookup f k).
+Proof. exact tar_roundtrip. Qed.
+Print Assumptions C17_tar_roundtrip.
+
+(** Not proved: the same with a directory prefix [S] handed to TarZipFile
+    (the tree arrives under [D ++ S]; [D] and the directories of [S] are
+    created with the root entry's mode).  [C17_tar_roundtrip] is the case
+    [S = []]; the prefixed case is exercised by the tzround stream (dir =
+    ctx, ctx/sub, ".") and its containment is [C17_tarzip_then_untar_confined]. *)
+Definition stmt_tar_roundtrip_prefixed : Prop := forall c f dir D S t,
+  wf_tree t = true -> forallb goodb S = true ->
+  dir <> [] -> resolve (cwd c) dir = Some D -> dest_ready f D ->
+  exists f',
+    untar c f dir (tar_zip (join_slash S) (zip_dir t)) = (XOk, f') /\
+    (forall r, lookup f' (D ++ S ++ r) = option_map (tar_node (umask c)) (lookup t r)) /\
+    (forall k, is_prefix D k = false -> lookup f' k = lookup f k).
+
 (** ** The model is the current source *)
 
 Theorem C17_source_as_modelled :
@@ -173,15 +243,35 @@ Theorem C17_source_as_modelled :
   gen_src_unzip_inDir = model_src_unzip_inDir /\ gen_src_untar_inDir = model_src_untar_inDir /\
   gen_src_createFile = model_src_createFile /\
   gen_src_zipDir = model_src_zipDir /\ gen_src_zipFile = model_src_zipFile /\
-  gen_check_first_unzip = true /\ gen_check_first_untar = true.
+  gen_check_first_unzip = true /\ gen_check_first_untar = true /\
+  gen_src_openInTemp = model_src_openInTemp /\ gen_src_tarZipFile = model_src_tarZipFile /\
+  gen_src_copyZipFile = model_src_copyZipFile.
 Proof.
   exact (conj arch_src_unzip_unchanged (conj arch_calls_unzip_unchanged
         (conj arch_src_untar_unchanged (conj arch_calls_untar_unchanged
         (conj arch_src_unzip_inDir_unchanged (conj arch_src_untar_inDir_unchanged
         (conj arch_src_createFile_unchanged (conj arch_src_zipDir_unchanged
-        (conj arch_src_zipFile_unchanged (conj arch_unzip_check_first arch_untar_check_first)))))))))).
+        (conj arch_src_zipFile_unchanged (conj arch_unzip_check_first (conj arch_untar_check_first
+        (conj arch_src_openInTemp_unchanged (conj arch_src_tarZipFile_unchanged arch_src_copyZipFile_unchanged))))))))))))).
 Qed.
 Print Assumptions C17_source_as_modelled.
+
+(** The exported callers of the extractors are the extractors: [Cont.CopyOut]
+    touches the file system only through [writeTarToDir], [Cont.CopyOutFile]
+    only through [writeFirstFileAs], that one only through [createFile]; each
+    hands on its own destination parameter unchanged, and [writeFirstFileAs]
+    reads no entry name.  (Decided on the call skeletons regenerated from
+    dock/cont.go and dock/write_tar.go.) *)
+Theorem C17_callers_are_the_modelled_extractors :
+  (only_writer "writeTarToDir" gen_calls_copyout = true /\ gen_dest_arg_copyout = gen_dest_param_copyout) /\
+  (only_writer "writeFirstFileAs" gen_calls_copyoutfile = true /\ gen_dest_arg_copyoutfile = gen_dest_param_copyoutfile) /\
+  (only_writer "createFile" gen_calls_firstfile = true /\ gen_dest_arg_firstfile = gen_dest_param_firstfile /\
+   gen_uses_entry_name_firstfile = false).
+Proof.
+  exact (conj arch_copyout_is_the_modelled_extractor
+        (conj arch_copyoutfile_is_the_modelled_extractor arch_firstfile_ignores_entry_names)).
+Qed.
+Print Assumptions C17_callers_are_the_modelled_extractors.
 
 (** ** Non-vacuity *)
 
@@ -209,6 +299,18 @@ Example C17_nonvacuous_refusal :
   in_dir [] (filepath_join [[]; bs "/abs/evil.txt"]) = false.
 Proof. vm_compute. repeat split. Qed.
 
+(** A sequence: a hostile archive (refused part-way), the destination
+    removed by somebody, a benign archive with clear, the hostile one again
+    through the tar extractor: the file outside is what it was. *)
+Example C17_nonvacuous_sequence :
+  let D := [bs "sb"; bs "dest"] in
+  let xs := [XUnzip false ex_entries; XForeign []; XUnzip true [hd (Build_entry [] KFile 0 []) ex_entries];
+             XUntar ex_entries] in
+  resolve (cwd ex_cfg) (clean (bs "/sb/dest")) = Some D /\
+  lookup (do_calls ex_cfg (bs "/sb/dest") D ex_fs xs) [bs "sb"; bs "evil.txt"] = Some (NFile 384 (bs "pre-existing")) /\
+  lookup (do_calls ex_cfg (bs "/sb/dest") D ex_fs xs) [bs "sb"; bs "dest"; bs "ok.txt"] = Some (NFile 420 (bs "fine")).
+Proof. vm_compute. repeat split. Qed.
+
 Definition ex_tree : tree :=
   [ ([bs "a-b"], NFile 420 (bs "1")); ([], NDir 509); ([bs "a"; bs "b"], NFile 384 (bs "2"));
     ([bs "a"], NDir 448) ].
@@ -228,3 +330,14 @@ Proof.
   split; [vm_compute; reflexivity|]. split; [vm_compute; reflexivity|].
   split; [vm_compute; reflexivity|]. vm_compute. repeat split.
 Qed.
+
+(** The exact round trip and the tar round trip are not vacuous. *)
+Example C17_nonvacuous_exact_and_tar :
+  let c0 := {| cwd := [bs "sb"]; umask := 0 |} in
+  modes_plain ex_tree = true /\
+  lookup (snd (unzip_entries c0 ex_fs (bs "out") (zip_dir ex_tree))) [bs "sb"; bs "out"] = Some (NDir 509) /\
+  fst (untar ex_cfg ex_fs (bs "out") (tar_zip [] (zip_dir ex_tree))) = XOk /\
+  lookup (snd (untar ex_cfg ex_fs (bs "out") (tar_zip [] (zip_dir ex_tree)))) [bs "sb"; bs "out"; bs "a-b"]
+    = Some (NFile 420 (bs "1")) /\
+  map e_name (tar_zip (bs "ctx") (zip_dir ex_tree)) = [bs "ctx"; bs "ctx/a"; bs "ctx/a/b"; bs "ctx/a-b"].
+Proof. vm_compute. repeat split. Qed.
